@@ -18,7 +18,6 @@ RUN = "run_proxyops"
 CASE_TYPE = "pcase"
 
 SELF = "<<self>>"     # internal marker for "the receiver itself"
-_DICT_READY = False
 
 # ---------------------------------------------------------------------------------------------
 # fields under test (fid 0 = the field whose proxy is exercised, fid 1 = "another field")
@@ -316,8 +315,6 @@ def generate(rng, tier):
     for fname in FIELDS:
         cases += _list_matrix(fname, tier)
     cases += _dict_matrix(tier)
-    if not _DICT_READY:
-        return [c for c in cases if c.get("which") != "dict"] + [_list_random(rng, FIELDS[i % len(FIELDS)], 14 if tier == "quick" else 40) for i in range(260 if tier == "quick" else 6000)]
     nrand = 260 if tier == "quick" else 6000
     maxops = 14 if tier == "quick" else 40
     for i in range(nrand):
@@ -328,14 +325,517 @@ def generate(rng, tier):
 
 
 # ---------------------------------------------------------------------------------------------
-# dict part: filled in below
+# dict part
 # ---------------------------------------------------------------------------------------------
+DKINDS = {"si": ("str", "int"), "is": ("int", "str"), "ab": ("any", "bool")}
+POOL["any"] = [1, True, 1.0, "a", None, 0, False, "A", 2]
+QUERY["any"] = [1, True, 1.0, "a", None, 0, 2.5, "zz", False]
+OTHER_POOL["any"] = ["a", "b", "1"]
+SRC_KINDS = ["none", "dict", "pairs", "iter", "gen", "mapping", "mappingproxy", "compat", "othercfg", "otherfield",
+             "self"]
+OR_KINDS = ["dict", "pairs", "compat", "othercfg", "otherfield", "self"]   # `|` with other mappings is their __ror__
+KW_KEYS = {"str": ["a", "B", "c ", "zz"], "int": ["7", "5", "abc", "100", "101"], "any": ["a", "b", "k"]}
+
+
+def _denv(dk):
+    key = "dict:" + dk
+    if key not in _CACHE:
+        from cincoconfig import Schema, DictField, StringField
+        s = Schema()
+        kf = None if DKINDS[dk][0] == "any" else _mk_field(DKINDS[dk][0])
+        s.d = DictField(kf, _mk_field(DKINDS[dk][1]))
+        s.o = DictField(StringField(), StringField())
+        _CACHE[key] = (s, s._fields["d"].key_field, s._fields["d"].value_field)
+    return _CACHE[key]
+
+
+def _classes(values, field):
+    out = {"valid": [], "normalisable": [], "invalid": []}
+    for x in values:
+        r = _validate(field, x)
+        out["invalid" if r[0] == "err" else ("valid" if _same(r[1], x) else "normalisable")].append(x)
+    return out
+
+
+def _dpools(dk):
+    _, kf, vf = _denv(dk)
+    kn, vn = DKINDS[dk]
+    kcls = _classes([x for x in POOL[kn] if not isinstance(x, list)], kf)
+    vcls = _classes(POOL[vn], vf)
+    return kcls, vcls
+
+
+def _pick(rng, cls, p_valid=0.55, p_norm=0.3):
+    r = rng.random()
+    if r < p_valid and cls["valid"]:
+        return rng.choice(cls["valid"])
+    if r < p_valid + p_norm and cls["normalisable"]:
+        return rng.choice(cls["normalisable"])
+    if cls["invalid"]:
+        return rng.choice(cls["invalid"])
+    return rng.choice(cls["valid"])
+
+
+def _src_pairs(dk, skind, kcls, vcls, ck, rng=None):
+    """pairs for a source of kind skind whose 'interesting' pair is of class ck (valid/normalisable/invalid)"""
+    kn, vn = DKINDS[dk]
+    if skind in ("none", "self"):
+        return []
+    if skind in ("othercfg", "compat"):
+        ok_k = kcls["valid"] + kcls["normalisable"]
+        ok_v = vcls["valid"] + vcls["normalisable"]
+        return [(ok_k[0], ok_v[0]), (ok_k[-1], ok_v[-1])]
+    if skind == "otherfield":
+        ks, vs = OTHER_POOL[kn], OTHER_POOL[vn]
+        _, kf, vf = _denv(dk)
+        kk = [k for k in ks if classify_by(kf, k) == (ck if ck != "valid" else classify_by(kf, k))]
+        good_k = [k for k in ks if classify_by(kf, k) != "invalid"] or ks
+        by = [v for v in vs if classify_by(vf, v) == ck] or vs
+        return [(good_k[0], by[0]), (good_k[-1], vs[0])]
+    v = vcls["valid"]
+    k = [x for x in kcls["valid"] if x is not None] or kcls["valid"]
+    special_v = (vcls[ck] or v)[0]
+    special_k = (kcls[ck] or k)[0]
+    return [(k[0], v[0]), (k[1 % len(k)], special_v), (special_k, v[1 % len(v)])]
+
+
+def classify_by(field, x):
+    r = _validate(field, x)
+    return "invalid" if r[0] == "err" else ("valid" if _same(r[1], x) else "normalisable")
+
+
 def _dict_matrix(tier):
-    return []
+    cases = []
+    for dk in DKINDS:
+        kn, vn = DKINDS[dk]
+        kcls, vcls = _dpools(dk)
+        k = [x for x in kcls["valid"] if x is not None] or kcls["valid"]
+        v = [x for x in vcls["valid"] if x is not None]
+        inits = [[], [(k[0], v[0])], [(k[0], v[0]), (k[1 % len(k)], (vcls["normalisable"] or v)[0]), (k[2 % len(k)], v[1 % len(v)])]]
+        for init in inits:
+            single = []
+            for ck in ("valid", "normalisable", "invalid"):
+                for kk in {(kcls[ck] or k)[0], k[0], (kcls["valid"])[-1]}:
+                    for vv in ((vcls[ck] or v)[0], v[0]):
+                        single += [[("setitem", kk, vv)], [("setdefault", kk, vv)]]
+                    single.append([("setdefault1", kk)])
+                for skind in SRC_KINDS:
+                    if skind in ("none", "self", "compat", "othercfg") and ck != "valid":
+                        continue
+                    ps = _src_pairs(dk, skind, kcls, vcls, ck)
+                    single += [[("update", (skind, ps), [])]]
+                    if skind != "none":
+                        single += [[("ior", (skind, ps))]]
+                    if skind in OR_KINDS:
+                        single += [[("or", (skind, ps))]]
+                    single += [[("update", (skind, []), [])]]
+                    kw = [(KW_KEYS[kn][0], v[0]), (KW_KEYS[kn][1], (vcls[ck] or v)[0]), (KW_KEYS[kn][-1], v[0])]
+                    single += [[("update", (skind, ps), kw)]]
+                single += [[("update", ("none", []), [(kx, v[0]) for kx in KW_KEYS[kn]])]]
+            for q in QUERY[kn]:
+                single += [[("pop", q)], [("popd", q, 99)], [("delitem", q)], [("getitem", q)], [("get", q)],
+                           [("getd", q, "dflt")], [("contains", q)]]
+            single += [[("popitem",)], [("popitem",), ("popitem",)], [("clear",)], [("len",)], [("items",)], [("keys",)],
+                       [("values",)], [("reversed",)], [("copy",)]]
+            _, kf, vf = _denv(dk)
+            ninit = list(dict((kf.validate(None, a), vf.validate(None, b)) for a, b in init).items())
+            for o in (("dict", ninit), ("dict", list(reversed(ninit))), ("dict", ninit[:-1]), ("dict", ninit + [("zz9", v[0])]),
+                      ("val", None), ("val", [list(p) for p in ninit])):
+                single += [[("eq", o)], [("ne", o)]]
+            if ninit:
+                single += [[("eq", ("dict", [(a, (True if _same(b, 1) else (1 if b is True else b))) for a, b in ninit]))]]
+            for ops in single:
+                cases.append({"kind": "dict", "field": dk, "init": [tuple(p) for p in init], "ops": list(ops) + [("copy",)],
+                              "src": "matrix"})
+    return cases
 
 
 def _dict_random(rng, i, maxops):
-    raise Broken("dict generator missing")
+    dk = list(DKINDS)[i % len(DKINDS)]
+    kn, vn = DKINDS[dk]
+    kcls, vcls = _dpools(dk)
+    okk = kcls["valid"] + kcls["normalisable"]
+    okv = vcls["valid"] + vcls["normalisable"]
+    init = [(rng.choice(okk), rng.choice(okv)) for _ in range(rng.choice([0, 1, 2, 3, 4]))]
+
+    def rpairs(n, sure_ok=False):
+        if sure_ok:
+            return [(rng.choice(okk), rng.choice(okv)) for _ in range(n)]
+        return [(_pick(rng, kcls, 0.6, 0.3), _pick(rng, vcls, 0.6, 0.3)) for _ in range(n)]
+
+    def rsrc():
+        skind = rng.choice(SRC_KINDS)
+        n = rng.randint(0, 3)
+        if skind in ("none", "self"):
+            return (skind, [])
+        if skind in ("compat", "othercfg"):
+            return (skind, rpairs(n, True))
+        if skind == "otherfield":
+            return (skind, [(rng.choice(OTHER_POOL[kn]), rng.choice(OTHER_POOL[vn])) for _ in range(n)])
+        return (skind, rpairs(n))
+
+    ops = []
+    for _ in range(rng.randint(3, maxops)):
+        r = rng.random()
+        q = rng.choice(QUERY[kn])
+        if r < 0.16:
+            ops.append(("setitem",) + rpairs(1)[0])
+        elif r < 0.36:
+            kw = []
+            if rng.random() < 0.4:
+                kw = [(kx, _pick(rng, vcls, 0.7, 0.2)) for kx in rng.sample(KW_KEYS[kn], rng.randint(1, 3))]
+            ops.append(("update", rsrc(), kw))
+        elif r < 0.44:
+            src = rsrc()
+            ops.append(("ior", src) if src[0] != "none" else ("update", src, []))
+        elif r < 0.52:
+            kv = rpairs(1)[0]
+            ops.append(("setdefault",) + kv if rng.random() < 0.7 else ("setdefault1", kv[0]))
+        elif r < 0.56:
+            ops.append(("copy",))
+        elif r < 0.63:
+            ops.append(("pop", q) if rng.random() < 0.5 else ("popd", q, rng.choice([None, 0, "d"])))
+        elif r < 0.68:
+            ops.append(("popitem",))
+        elif r < 0.73:
+            ops.append(("delitem", q))
+        elif r < 0.82:
+            ops.append(rng.choice([("getitem", q), ("get", q), ("getd", q, rng.choice([None, 1, "d"])), ("contains", q)]))
+        elif r < 0.84:
+            ops.append(("clear",))
+        elif r < 0.91:
+            ops.append((rng.choice(["len", "items", "keys", "values", "reversed"]),))
+        elif r < 0.96:
+            o = rng.choice([("dict", list(dict(rpairs(rng.randint(0, 2), True)).items())), ("val", None), ("val", [])])
+            ops.append((rng.choice(["eq", "ne"]), o))
+        else:
+            src = rsrc()
+            ops.append(("or", src) if src[0] in OR_KINDS else ("update", src, []))
+    return {"kind": "dict", "field": dk, "init": init, "ops": ops, "src": "random"}
+
+
+def _dict_collapse(ps):
+    return list(dict(ps).items())
+
+
+def _dsrc_contents(dk, src):
+    """the pairs the source yields, as the model sees them (after the source object's own normalisation)"""
+    skind, ps = src
+    schema, kf, vf = _denv(dk)
+    if skind in ("none", "self"):
+        return []
+    if skind in ("dict", "mapping", "mappingproxy"):
+        return _dict_collapse(ps)
+    if skind in ("pairs", "iter", "gen"):
+        return [tuple(p) for p in ps]
+    if skind in ("compat", "othercfg"):
+        h = schema()
+        h.d = dict(ps)
+        return list(h.d.items())
+    if skind == "otherfield":
+        h = schema()
+        h.o = dict(ps)
+        return list(h.o.items())
+    raise Broken("bad source kind " + skind)
+
+
+def _g_pairs(ps):
+    return "[%s]" % ";".join("(%s,%s)" % (gal(a), gal(b)) for a, b in ps)
+
+
+def _g_dsrc(dk, src):
+    skind = src[0]
+    if skind == "none":
+        return "DSNone"
+    if skind == "self":
+        return "DSSelf"
+    con = {"dict": "DSDict", "pairs": "DSPairs", "iter": "DSIter", "gen": "DSIter", "mapping": "DSMapping",
+           "mappingproxy": "DSMapping", "compat": "DSCompat", "othercfg": "DSProxyOther", "otherfield": "DSProxyOther"}[skind]
+    return "(%s %s)" % (con, _g_pairs(_dsrc_contents(dk, src)))
+
+
+def _g_eqarg(o):
+    return "(PDict 0%%N %s)" % _g_pairs(_dict_collapse(o[1])) if o[0] == "dict" else gal(o[1])
+
+
+def _g_dop(dk, op):
+    k = op[0]
+    if k == "setitem":
+        return "(DSetItem %s %s)" % (gal(op[1]), gal(op[2]))
+    if k == "update":
+        return "(DUpdate %s %s)" % (_g_dsrc(dk, op[1]), _g_pairs(op[2]))
+    if k in ("ior", "or"):
+        return "(%s %s)" % ("DIOr" if k == "ior" else "DOr", _g_dsrc(dk, op[1]))
+    if k == "setdefault":
+        return "(DSetDefault %s (Some %s))" % (gal(op[1]), gal(op[2]))
+    if k == "setdefault1":
+        return "(DSetDefault %s None)" % gal(op[1])
+    if k == "pop":
+        return "(DPop %s None)" % gal(op[1])
+    if k == "popd":
+        return "(DPop %s (Some %s))" % (gal(op[1]), gal(op[2]))
+    if k == "get":
+        return "(DGet %s None)" % gal(op[1])
+    if k == "getd":
+        return "(DGet %s (Some %s))" % (gal(op[1]), gal(op[2]))
+    if k in ("delitem", "getitem", "contains"):
+        return "(%s %s)" % ({"delitem": "DDelItem", "getitem": "DGetItem", "contains": "DContains"}[k], gal(op[1]))
+    if k in ("eq", "ne"):
+        return "(%s %s)" % ("DEq" if k == "eq" else "DNe", _g_eqarg(op[1]))
+    simple = {"copy": "DCopy", "popitem": "DPopItem", "clear": "DClear", "len": "DLen", "items": "DItems", "keys": "DKeys",
+              "values": "DValues", "reversed": "DReversed"}
+    if k in simple:
+        return simple[k]
+    raise Broken("bad dict op %r" % (op,))
+
+
+def _g_dict_case(c):
+    dk = c["field"]
+    _, kf, vf = _denv(dk)
+    ks, vs = [], []
+    for a, b in c["init"]:
+        ks.append(a)
+        vs.append(b)
+    for op in c["ops"]:
+        ps = []
+        if op[0] in ("setitem", "setdefault"):
+            ps = [(op[1], op[2])]
+        elif op[0] == "setdefault1":
+            ps = [(op[1], None)]
+        elif op[0] == "update":
+            ps = _dsrc_contents(dk, op[1]) + list(op[2])
+        elif op[0] == "ior":
+            ps = _dsrc_contents(dk, op[1])
+        for a, b in ps:
+            ks.append(a)
+            vs.append(b)
+    return "(CDict %s %s %s %s %s)" % (g_n(1), _table(kf, ks), _table(vf, vs), _g_pairs(_dict_collapse(c["init"])),
+                                       g_list(c["ops"], lambda o: _g_dop(dk, o)))
+
+
+def _enc_dict_ret(r, recv, fid_of):
+    from cincoconfig.fields.dict_field import DictProxy
+    if r is recv:
+        return Other(0)
+    if isinstance(r, DictProxy):
+        return Proxy(fid_of(r), dict(r))
+    return r
+
+
+def _apply_dict(obj, op, arg, kw):
+    k = op[0]
+    if k == "setitem":
+        obj[arg[0]] = arg[1]
+        return None
+    if k == "update":
+        return obj.update(**kw) if arg is _NOARG else obj.update(arg, **kw)
+    if k == "ior":
+        q = obj
+        q |= arg
+        return q
+    if k == "or":
+        return obj | arg
+    if k == "setdefault":
+        return obj.setdefault(arg[0], arg[1])
+    if k == "setdefault1":
+        return obj.setdefault(arg[0])
+    if k == "copy":
+        return obj.copy()
+    if k == "pop":
+        return obj.pop(op[1])
+    if k == "popd":
+        return obj.pop(op[1], op[2])
+    if k == "popitem":
+        return obj.popitem()
+    if k == "delitem":
+        del obj[op[1]]
+        return None
+    if k == "getitem":
+        return obj[op[1]]
+    if k == "get":
+        return obj.get(op[1])
+    if k == "getd":
+        return obj.get(op[1], op[2])
+    if k == "contains":
+        return op[1] in obj
+    if k == "clear":
+        return obj.clear()
+    if k == "len":
+        return len(obj)
+    if k == "items":
+        return list(obj.items())
+    if k == "keys":
+        return list(obj.keys())
+    if k == "values":
+        return list(obj.values())
+    if k == "reversed":
+        return list(reversed(obj))
+    if k in ("eq", "ne"):
+        o = dict(op[1][1]) if op[1][0] == "dict" else op[1][1]
+        return (obj == o) if k == "eq" else (obj != o)
+    raise Broken("bad dict op %r" % (op,))
+
+
+_NOARG = object()
+
+
+def _impl_dict(c):
+    import collections
+    import types
+    from cincoconfig.fields.dict_field import DictProxy
+    dk = c["field"]
+    schema, kf, vf = _denv(dk)
+    cfg = schema()
+
+    def fid_of(px):
+        return 0 if px.dict_field is schema._fields["d"] else 1
+
+    def vpair(a, b):
+        ra, rb = _validate(kf, a), _validate(vf, b)
+        return (ra[1], rb[1]) if ra[0] == "ok" and rb[0] == "ok" else None
+
+    def vpairs(ps):
+        out = []
+        for a, b in ps:
+            r = vpair(a, b)
+            if r is None:
+                return out, False
+            out.append(r)
+        return out, True
+
+    try:
+        cfg.d = dict(c["init"])
+    except Exception as e:  # noqa
+        return ("init", _errkind(e))
+    p = cfg.d
+    twin = {}
+    for a, b in dict(c["init"]).items():
+        twin[kf.validate(None, a)] = vf.validate(None, b)
+    trace = [Proxy(fid_of(p), dict(p)) if isinstance(p, DictProxy) else dict(p)]
+    for op in c["ops"]:
+        k = op[0]
+        accepted, parg, targ, pkw, tkw = True, None, None, {}, {}
+        src_ok, kw_prefix = True, []
+        if k in ("setitem", "setdefault", "setdefault1"):
+            parg = (op[1], op[2] if k != "setdefault1" else None)
+            r = vpair(*parg)
+            accepted, targ = r is not None, r
+        elif k in ("update", "ior", "or"):
+            skind, ps = op[1]
+            contents = _dsrc_contents(dk, op[1])
+            if skind == "none":
+                parg, targ = _NOARG, _NOARG
+            elif skind == "self":
+                parg, targ = p, twin
+            elif skind == "compat":
+                parg = p.copy()
+                parg.clear()
+                parg.update(dict(ps))
+                targ = list(parg.items())
+            elif skind in ("othercfg", "otherfield"):
+                h = schema()
+                if skind == "othercfg":
+                    h.d = dict(ps)
+                    parg = h.d
+                else:
+                    h.o = dict(ps)
+                    parg = h.o
+            else:
+                raw = [tuple(x) for x in ps]
+                parg = {"dict": dict, "pairs": list, "iter": iter, "gen": lambda v: (x for x in v),
+                        "mapping": lambda v: collections.UserDict(dict(v)),
+                        "mappingproxy": lambda v: types.MappingProxyType(dict(v))}[skind](raw)
+            if k == "or":
+                # never validated: the twin gets the same pairs in a plain dict (or the non-dict argument itself)
+                if skind in ("othercfg", "otherfield", "compat"):
+                    targ = dict(contents)
+                elif skind not in ("none", "self"):
+                    targ = {"dict": dict, "pairs": list, "iter": iter, "gen": iter,
+                            "mapping": lambda v: collections.UserDict(dict(v)),
+                            "mappingproxy": lambda v: types.MappingProxyType(dict(v))}[skind]([tuple(x) for x in ps])
+            elif skind not in ("none", "self", "compat"):
+                norm, src_ok = vpairs(contents)
+                targ = norm if src_ok else None
+                accepted = src_ok
+            if k == "update":
+                pkw = dict(op[2])
+                nkw, kw_all = vpairs(list(pkw.items()))
+                kw_prefix = nkw
+                if accepted and not kw_all:
+                    accepted = False
+                tkw = nkw
+        if k == "or" and op[1][0] == "none":
+            pout = tout = ("err", "type")      # `p | <nothing>` is not an expression: recorded as a type error on both sides
+        else:
+            pout = _run(lambda: _enc_dict_ret(_apply_dict(p, op, parg, pkw), p, fid_of))
+            if accepted:
+                if k == "update":
+                    # keyword keys are normalised too: hand them over as pairs after the positional part
+                    def upd_twin():
+                        if targ is not _NOARG:
+                            twin.update(targ)
+                        twin.update(tkw)
+                    tout = _run(upd_twin)
+                else:
+                    tout = _run(lambda: _enc_dict_ret(_apply_dict(twin, op, targ, {}), twin, fid_of))
+            else:
+                tout = "skipped"
+                if k == "update" and src_ok:
+                    if targ is not _NOARG and targ is not None:
+                        twin.update(targ)
+                    twin.update(kw_prefix)
+        if type(p) is not DictProxy or cfg.d is not p:
+            return ("lost-proxy", k)
+        trace.append((pout, Proxy(fid_of(p), dict(p)), tout, dict(twin)))
+    return trace
+
+
+def _oracle_dict(c, obs):
+    bad = []
+    if not isinstance(obs, list):
+        return ["assigning an acceptable initial dict failed: %r" % (obs,)]
+    _, kf, vf = _denv(c["field"])
+    prev = obs[0]
+    if not isinstance(prev, Proxy):
+        return ["the assigned dict is not a typed dict"]
+
+    def held_ok(d):
+        for a, b in d.items():
+            ra, rb = _validate(kf, a), _validate(vf, b)
+            if ra[0] != "ok" or not _same(ra[1], a):
+                return "key %r" % (a,)
+            if rb[0] != "ok" or not _same(rb[1], b):
+                return "value %r" % (b,)
+        return None
+
+    for n, (op, (pout, pc, tout, tc)) in enumerate(zip(c["ops"], obs[1:])):
+        k = op[0]
+        if not isinstance(pc, Proxy) or pc.fid != 0:
+            bad.append("step %d (%s): the dict is no longer a typed dict of its field" % (n, k))
+            break
+        h = held_ok(pc.items)
+        if h:
+            bad.append("step %d (%s): held %s is not a validated key/value of the field" % (n, k, h))
+        if tout != "skipped":
+            if not _deep_same(pc.items, tc):
+                bad.append("step %d (%s): contents %r differ from the builtin's %r" % (n, k, pc.items, tc))
+            if pout[0] != tout[0] or not _eq_ret(pout[1], tout[1]):
+                bad.append("step %d (%s): result %r differs from the builtin's %r" % (n, k, _canon_out(pout), _canon_out(tout)))
+            if pout[0] == "ok" and k == "copy":
+                r = pout[1]
+                if not isinstance(r, Proxy) or r.fid != 0:
+                    bad.append("step %d (copy): the result is not a typed dict" % n)
+                elif held_ok(r.items):
+                    bad.append("step %d (copy): the returned typed dict holds unvalidated %s" % (n, held_ok(r.items)))
+            if pout[0] == "ok" and k == "ior" and not (isinstance(pout[1], Other) and pout[1].tag == 0):
+                bad.append("step %d (|=): the result is not the typed dict itself" % n)
+        else:
+            if pout[0] == "ok":
+                bad.append("step %d (%s): an unacceptable key or value was accepted" % (n, k))
+            if k in ("setitem", "setdefault", "setdefault1") and not _deep_same(pc.items, prev.items):
+                bad.append("step %d (%s): a rejected single-item operation changed the dict" % (n, k))
+        prev = pc
+    return bad
 
 
 # ---------------------------------------------------------------------------------------------
@@ -504,10 +1004,6 @@ def gcase(c):
     return _g_dict_case(c)
 
 
-def _g_dict_case(c):
-    raise Broken("dict literal missing")
-
-
 # ---------------------------------------------------------------------------------------------
 # running the implementation
 # ---------------------------------------------------------------------------------------------
@@ -673,10 +1169,6 @@ def _impl_list(c):
     return trace
 
 
-def _impl_dict(c):
-    raise Broken("dict runner missing")
-
-
 def impl(c):
     if c["kind"] == "slots":
         return [(m, ov) for m, ov in _slots(c["which"])]
@@ -777,10 +1269,6 @@ def _oracle_list(c, obs):
 
 def _canon_out(o):
     return (o[0], _plain(o[1]) if not isinstance(o[1], Other) else "<self>") if isinstance(o, tuple) else o
-
-
-def _oracle_dict(c, obs):
-    return []
 
 
 def oracle(c, obs):
